@@ -390,7 +390,13 @@ def _run(spec, rec, qv):
             # what is judged below is the model as it is at the end
             for form in ("to_pubo", "to_puso", "to_qubo", "to_quso"):
                 lib(getattr(H, form), what=form + "(intermediate)")
-            lib(H.solve_bruteforce, what="solve_bruteforce(intermediate)", expect=(KeyError,))
+            try:
+                lib(H.solve_bruteforce, what="solve_bruteforce(intermediate)", expect=(KeyError,))
+            except KeyError as e:
+                # admissible only for a constraint label that occurs in no term of the model (C08's own precondition)
+                if all(l in ref.labels_of(dict(H)) for l in clabels):
+                    raise Violation("solve_bruteforce_keyerror/intermediate",
+                                    "KeyError %s although every constraint label occurs in the model %r" % (e, dict(H)))
             classes.add("intermediate_export")
         name, args, kw, pred, d, cl = _plan_constraint(c, labels, wbits, spin)
         clabels |= cl
